@@ -6,18 +6,25 @@ VERIF_DIR="${VERIF_DIR:-$(cd "$(dirname "${BASH_SOURCE[0]}")" && pwd)}"
 VERIF_REPO="${VERIF_REPO:-/repo}"
 cd "$VERIF_DIR/harness"
 mkdir -p "$VERIF_DIR/.work/bin" "$VERIF_DIR/.work/overlay"
+MODFLAG=""
+if [ "$VERIF_REPO" != "/repo" ]; then
+  # build against another copy of the repository (scratch worktree): same go.mod with the replace redirected
+  sed "s#=> /repo#=> $VERIF_REPO#" go.mod > "$VERIF_DIR/.work/alt.mod"
+  cp go.sum "$VERIF_DIR/.work/alt.sum"
+  MODFLAG="-modfile=$VERIF_DIR/.work/alt.mod"
+fi
 (
   flock 9
   if [ -x "$VERIF_DIR/shim/mkoverlay.sh" ]; then
     "$VERIF_DIR/shim/mkoverlay.sh" "$VERIF_REPO" "$VERIF_DIR/.work/overlay"
-    go build -tags verif -overlay "$VERIF_DIR/.work/overlay/overlay.json" -o "$VERIF_DIR/.work/bin/vcheck.new" ./cmd/vcheck
+    go build $MODFLAG -tags verif -overlay "$VERIF_DIR/.work/overlay/overlay.json" -o "$VERIF_DIR/.work/bin/vcheck.new" ./cmd/vcheck
   else
-    go build -tags verif -o "$VERIF_DIR/.work/bin/vcheck.new" ./cmd/vcheck
+    go build $MODFLAG -tags verif -o "$VERIF_DIR/.work/bin/vcheck.new" ./cmd/vcheck
   fi
   mv "$VERIF_DIR/.work/bin/vcheck.new" "$VERIF_DIR/.work/bin/vcheck"
   # the same program under the race detector (free-running race pass of C09-C11)
   if [ "${VERIF_SKIP_RACE_BUILD:-0}" != 1 ]; then
-    go build -race -tags verif -overlay "$VERIF_DIR/.work/overlay/overlay.json" -o "$VERIF_DIR/.work/bin/vcheck-race.new" ./cmd/vcheck \
+    go build $MODFLAG -race -tags verif -overlay "$VERIF_DIR/.work/overlay/overlay.json" -o "$VERIF_DIR/.work/bin/vcheck-race.new" ./cmd/vcheck \
       && mv "$VERIF_DIR/.work/bin/vcheck-race.new" "$VERIF_DIR/.work/bin/vcheck-race"
   fi
 ) 9>"$VERIF_DIR/.work/build.lock"
